@@ -33,8 +33,8 @@ PROPS["C02"] = dict(
     level="proof",
     technique="Lean 4 theorems (exact pixel test; routing = hot pixels met, in travel order, by level induction) on a hand-written model + exhaustive/differential correspondence with pointindex",
     module="Texel.Properties.C02",
-    translators=["arith"],
-    theorems=["Texel.GenArith.gen_containsPoint", "Texel.GenArith.gen_up", "Texel.GenArith.gen_extent", "Texel.C02.C02_pixel_test", "Texel.C02.C02_hot_closed", "Texel.C02.C02_routing", "Texel.C02.C02_routing_index",
+    translators=["arith", "lineint"],
+    theorems=["Texel.GenLineInt.gen_lineIntersects", "Texel.C02.C02_pixel_test_source", "Texel.GenArith.gen_containsPoint", "Texel.GenArith.gen_up", "Texel.GenArith.gen_extent", "Texel.C02.C02_pixel_test", "Texel.C02.C02_hot_closed", "Texel.C02.C02_routing", "Texel.C02.C02_routing_index",
               "Texel.C02.C02_nodup", "Texel.C02.C02_routed_nonempty", "Texel.C02.C02_second_sentence_ring", "Texel.C02.C02_second_sentence_polygon"],
     streams=["li", "li-large", "route", "route-random", "snap", "model-functional-vs-reference"],
     trusted=["Model.Geom/Model.Route are hand-written mirrors of containsPoint, lineIntersects, findIntersectingQuadrants, snapClosestPoints, InsertPoint, insertCoord; "
